@@ -226,3 +226,68 @@ def dvvisit_replay(replay):
         return 0
     finally:
         sc.close()
+
+
+# ---------------------------------------------------------------------------
+# C08
+
+def run_c08(tier, seed, replay=None):
+    pid = "C08"
+    t0 = time.time()
+    q = tier == "quick"
+    sc = Scratch()
+    try:
+        zx = build_harness(("verif",))
+        known = load_known()
+        cfg = "DictIterQ.cfg" if q else "DictIter.cfg"
+        if replay:
+            cfg = "DictIter.cfg"
+        outp, st = tlc(sc, "DictIter", cfg=cfg, workers=8, timeout=1800, outname="di.out")
+        errs = tlc_errors(outp)
+        if errs:
+            raise Inconclusive("DictIter model: " + "; ".join(errs[:3]))
+        cnt = split_printed(outp, sc, {"WALK": ("walks.ndjson", "lines"), "DICT": ("dicts.ndjson", "lines")})
+        os.remove(outp)
+        if cnt["WALK"] == 0:
+            raise Inconclusive("DictIter model emitted no walks")
+        if replay:
+            obj = json.load(open(replay))
+            with open(sc.path("walks.ndjson"), "w") as fh:
+                fh.write(json.dumps(obj["diff"]["walk"]) + "\n")
+        # the original design (scratch postings list not cleared) must be refuted by TLC: the model is not vacuous
+        o2, st2 = tlc(sc, "DictIter", cfg="DictIterOrig.cfg", workers=4, timeout=600, outname="di2.out")
+        refuted = any("EnumExact is violated" in e for e in tlc_errors(o2))
+        if not refuted:
+            raise Inconclusive("DictIter model does not distinguish the original from the repaired design")
+        p = subprocess.run([zx, "dictiter", "-in", sc.path("walks.ndjson"), "-tables", sc.path("dicts.ndjson"), "-dir", sc.path("segs"),
+                            "-out", sc.path("diffs.ndjson")], stdout=subprocess.PIPE, stderr=subprocess.STDOUT, text=True, timeout=3600)
+        if p.returncode != 0:
+            raise Inconclusive("harness dictiter failed: " + p.stdout[-1500:])
+        rs = kv(p.stdout)
+        log("G: DictIter(%s): %d states, %d queries (EnumExact, Ascending hold; original design refuted);  R: %s" % (cfg, st["distinct_states"], cnt["WALK"], p.stdout.strip()))
+        if rs.get("runs", 0) == 0 or rs.get("vellum_runs", 0) == 0:
+            raise Inconclusive("vacuous dictiter replay")
+        diffs = read_diffs(sc.path("diffs.ndjson"))
+        if replay:
+            if diffs:
+                log("replay: " + trunc(diffs[0], 800))
+                log("VIOLATION property=%s replay=%s" % (pid, replay))
+                return 1
+            log("replay: no violation of %s on the current tree" % pid)
+            return 0
+        with open(sc.path("walks.ndjson")) as fh:
+            lines = fh.readlines()
+        samples = [json.loads(lines[len(lines) // 2]), json.loads(lines[-1])]
+        cov = {"family": "dictiter", "states": st["distinct_states"] + st2["distinct_states"], "transitions": st["states_generated"] + st2["states_generated"],
+               "traces_validated_against_impl": rs["runs"], "samples": samples,
+               "model": {"module": "DictIter.tla", "cfg": cfg, "invariants": ["EnumExact", "Ascending"], "refuted_variant": "DictIterOrig.cfg (Repaired = FALSE)", "wall_s": st["wall_s"]},
+               "queries": cnt["WALK"], "dictionaries": cnt["DICT"], "iterator_runs": rs["runs"], "vellum_automaton_runs": rs["vellum_runs"],
+               "configurations": "every term set x acceptance set x key range x {mem, mmap, merged, merged twice} x {trie DFA, trie DFA with decoys, nil, vellum regexp / Levenshtein automata with the same denotation}; Contains and Cardinality per dictionary",
+               "evaluations": rs["runs"], "distinct_nontrivial": cnt["WALK"],
+               "rule": "one evaluation = one enumeration of a real dictionary; distinct = distinct (term set, acceptance set, range)", "exhaustive": True}
+        assumptions = ["key ranges are well-formed; an empty end key is read as 'no bound' by Go/vellum and is outside the domain",
+                       "acceptance of a vellum automaton on a term is its own denotation (the automaton is run on the term)",
+                       "expected entries are emitted by TLC from DictIter.tla"]
+        return finish(pid, tier, seed, t0, cov, assumptions, diffs, lambda d: "dictiter/" + d["what"], known, lambda d: d)
+    finally:
+        sc.close()
